@@ -16,24 +16,36 @@ Intern(tab, x) == IF Id(tab, x) = Len(tab) THEN Append(tab, x) ELSE tab
 NoDup(tab) == \A i, j \in 1..Len(tab) : tab[i] = tab[j] => i = j
 PadTo(s, n) == s \o [i \in 1..(IF n > Len(s) THEN n - Len(s) ELSE 0) |-> <<>>]
 
-BInit == [mode |-> "builder", srcs |-> <<>>, names |-> <<>>, toks |-> <<>>, contents |-> <<>>,
+\* srcs: the source names as they are now;  keys: the strings the sources were INTERNED under (position = id).
+\* The two differ only after a builder-side rename (b_set_source, b_strip_prefixes: extension E06).
+BInit == [mode |-> "builder", srcs |-> <<>>, keys |-> <<>>, names |-> <<>>, toks |-> <<>>, contents |-> <<>>,
           ignore |-> {}, root |-> <<>>, file |-> <<>>, debug |-> <<>>]
 
 \* projection of the map a builder / map state describes (what accessors must report)
 Sources(b) == [i \in 1..Len(b.srcs) |-> Join(b.root, b.srcs[i])]
 Contents(b) == [i \in 1..Len(b.srcs) |-> IF i <= Len(b.contents) THEN b.contents[i] ELSE <<>>]
 
-\* o: a logged call [op, s, n, pos, src, name, sid, nid, c, id, r, f, d]
+\* strip the first listed prefix (made to end in '/') that the name starts with
+NormPrefix(q) == IF q # <<>> /\ q[Len(q)] = SLASH THEN q ELSE q \o <<SLASH>>
+StripFirst(s, prefixes) ==
+    LET hits == {i \in DOMAIN prefixes : HasPrefix(s, NormPrefix(prefixes[i]))} IN
+    IF hits = {} THEN s
+    ELSE LET i == CHOOSE x \in hits : \A y \in hits : x <= y IN
+         SubSeq(s, Len(NormPrefix(prefixes[i])) + 1, Len(s))
+
+\* o: a logged call [op, s, n, pos, src, name, sid, nid, c, id, r, f, d, prefixes]
 BApply(b, o) ==
     CASE o.op = "add_source" ->
-            [st |-> [b EXCEPT !.srcs = Intern(b.srcs, o.s)], ret |-> Id(b.srcs, o.s)]
+            [st |-> [b EXCEPT !.srcs = IF Id(b.keys, o.s) = Len(b.keys) THEN Append(b.srcs, o.s) ELSE b.srcs,
+                              !.keys = Intern(b.keys, o.s)], ret |-> Id(b.keys, o.s)]
       [] o.op = "add_name" ->
             [st |-> [b EXCEPT !.names = Intern(b.names, o.n)], ret |-> Id(b.names, o.n)]
       [] o.op = "add" ->
-            LET sid == IF o.src = <<>> THEN -1 ELSE Id(b.srcs, o.src[1])
+            LET sid == IF o.src = <<>> THEN -1 ELSE Id(b.keys, o.src[1])
                 nid == IF o.name = <<>> THEN -1 ELSE Id(b.names, o.name[1])
                 t == Tok(o.pos[1], o.pos[2], sid, o.pos[3], o.pos[4], nid, o.pos[5])
-            IN [st |-> [b EXCEPT !.srcs = IF o.src = <<>> THEN b.srcs ELSE Intern(b.srcs, o.src[1]),
+            IN [st |-> [b EXCEPT !.srcs = IF o.src = <<>> \/ Id(b.keys, o.src[1]) < Len(b.keys) THEN b.srcs ELSE Append(b.srcs, o.src[1]),
+                                 !.keys = IF o.src = <<>> THEN b.keys ELSE Intern(b.keys, o.src[1]),
                                  !.names = IF o.name = <<>> THEN b.names ELSE Intern(b.names, o.name[1]),
                                  !.toks = Append(b.toks, t)],
                 ret |-> t]
@@ -47,6 +59,12 @@ BApply(b, o) ==
       [] o.op = "set_file" -> [st |-> [b EXCEPT !.file = o.f], ret |-> 0]
       [] o.op = "set_debug_id" -> [st |-> [b EXCEPT !.debug = o.d], ret |-> 0]
       [] o.op = "into_sourcemap" -> [st |-> [b EXCEPT !.mode = "map"], ret |-> 0]
+      \* ---- builder-side renames (extension E06, as found) ----
+      \* DEVIATION RenamedSourceStaysInternedUnderItsOldName: the name changes, the interning key does not, so adding
+      \* the OLD string again yields this id and adding the NEW string yields a fresh one.
+      [] o.op = "b_set_source" -> [st |-> [b EXCEPT !.srcs = [b.srcs EXCEPT ![o.id + 1] = o.s]], ret |-> 0]
+      [] o.op = "b_strip_prefixes" ->
+            [st |-> [b EXCEPT !.srcs = [i \in DOMAIN b.srcs |-> StripFirst(b.srcs[i], o.prefixes)]], ret |-> 0]
       \* ---- in-place setters of the finished map ----
       [] o.op = "m_set_source_root" -> [st |-> [b EXCEPT !.root = o.r], ret |-> 0]
       [] o.op = "m_set_source" -> [st |-> [b EXCEPT !.srcs = [b.srcs EXCEPT ![o.id + 1] = o.s]], ret |-> 0]
@@ -71,6 +89,14 @@ MapObsOK(b, op, obs) ==
     /\ SeqRange(obs.ignore) = b.ignore
     /\ obs.doc_sources = b.srcs                               \* serialisation writes the raw names ...
     /\ obs.doc_root = b.root                                  \* ... plus the root: never a prefixed name
+\* what the builder's own getters must report while it is being filled
+\* bobs = [file, root, sources, contents, has, beyond]
+BuilderObsOK(b, bobs) ==
+    /\ bobs.file = b.file /\ bobs.root = b.root
+    /\ bobs.sources = b.srcs                                  \* raw names: the root is applied by into_sourcemap
+    /\ bobs.contents = Contents(b)
+    /\ bobs.has = [i \in 1..Len(b.srcs) |-> Contents(b)[i] # <<>>]
+    /\ bobs.beyond = <<>>                                     \* get_source(count) is None
 \* every token resolves to exactly the strings it was added with (ids point at them)
 TokensResolve(b) == \A i \in 1..Len(b.toks) :
     /\ Src(b.toks[i]) < Len(b.srcs) /\ Nm(b.toks[i]) < Len(b.names)
